@@ -543,8 +543,20 @@ func (m *monitor) loadFailure(tag string, b *block, orders [][]int, text string,
 	defer os.RemoveAll(filepath.Join(m.dir, "logs", tag+"-o"))
 	defer os.RemoveAll(filepath.Join(m.dir, "logs", tag+"-p"))
 	if e0 != nil {
+		// rejected as written: if some reordering of the same lines loads, the
+		// block's effect depends on line order all the same
+		for _, o := range orders[1:] {
+			_, inst, t1, e1 := m.startSites(tag+"-p", b, [][]int{o})
+			if e1 != nil {
+				continue
+			}
+			m.stop(inst, 1)
+			c.Violation("C09/perm-differs/load", "a server block is rejected as written ("+e0.Error()+"), a reordering of its lines loads",
+				map[string]interface{}{"units_original": b.ids(orders[0]), "units_permuted": b.ids(o), "casketfile_permuted": t1, "error_original": e0.Error()})
+			return
+		}
 		c.Count("blocks_rejected_at_load", 1)
-		c.Inconclusive(fmt.Sprintf("generated block %s does not load (generator defect): %v; units=%v", tag, e0, b.ids(orders[0])))
+		c.Inconclusive(fmt.Sprintf("generated block %s does not load in any order tried (generator defect): %v; units=%v", tag, e0, b.ids(orders[0])))
 		return
 	}
 	m.stop(inst, 1)
